@@ -4,7 +4,10 @@
 // (never committed to the repository). They only read private state.
 package gopacket
 
-import "unsafe"
+import (
+	"reflect"
+	"unsafe"
+)
 
 // VerifSerializeBufferState exposes the private fields of the default
 // SerializeBuffer implementation.
@@ -43,14 +46,38 @@ func VerifLazyStep(p Packet) bool {
 	return true
 }
 
-// VerifPooledBlock returns the pool block (its first byte address and length)
-// backing a pooled packet, or nil.
+// VerifPooledBlock returns the pool block backing a pooled packet, or nil. The private field
+// is looked up by reflection so that a change that restructures pooledPacket still builds (the
+// harness then falls back to the packet's data pointer).
 func VerifPooledBlock(p Packet) *[]byte {
-	switch pp := p.(type) {
-	case *pooledPacket:
-		return pp.origData
-	case pooledPacket:
-		return pp.origData
+	v := reflect.ValueOf(p)
+	if v.Kind() == reflect.Ptr {
+		v = v.Elem()
+	}
+	if v.Kind() != reflect.Struct || v.Type().Name() != "pooledPacket" {
+		return nil
+	}
+	f := v.FieldByName("origData")
+	if !f.IsValid() || f.Kind() != reflect.Ptr || f.IsNil() {
+		return nil
+	}
+	if b, ok := reflect.NewAt(f.Type(), unsafe.Pointer(addrOf(v, f))).Elem().Interface().(*[]byte); ok {
+		return b
 	}
 	return nil
+}
+
+// addrOf returns the address of field f of struct value v (v may be unaddressable: it is copied).
+func addrOf(v, f reflect.Value) uintptr {
+	if f.CanAddr() {
+		return f.UnsafeAddr()
+	}
+	c := reflect.New(v.Type()).Elem()
+	c.Set(v)
+	for i := 0; i < v.NumField(); i++ {
+		if v.Type().Field(i).Name == "origData" {
+			return c.Field(i).UnsafeAddr()
+		}
+	}
+	return 0
 }
